@@ -1,6 +1,6 @@
 (* C10: what today's code does NOT satisfy. Witnesses are closed by vm_compute. *)
 From Coq Require Import NArith List Bool.
-From OG Require Import C10.Model C10.Regex C10.RegexSearch C10.Prune C10.Cache.
+From OG Require Import C10.Model C10.Regex C10.RegexSearch C10.Prune C10.Cache C10.Rows.
 Import ListNotations.
 Open Scope N_scope.
 
@@ -136,3 +136,9 @@ Proof.
   vm_compute. intros H. repeat match goal with H : Forall _ (_ :: _) |- _ => inversion H; clear H; subst end. discriminate.
 Qed.
 Print Assumptions C10_current_refuted_result_cache.
+
+(* a row scan that lets a REJECTED full row end the scan of its value loses a value whose eligible id sits in a later row
+   (not today's code: a non-vacuity witness for C10_row_scan_is_exists) *)
+Theorem C10_row_scan_variant_refuted : exists elig rows, scan_rows_skip_rejected_full elig rows <> existsb elig (concat rows).
+Proof. exact skip_rejected_full_refuted. Qed.
+Print Assumptions C10_row_scan_variant_refuted.
